@@ -1751,8 +1751,10 @@ class Quantity(metaclass=QuantityMeta):
             if self.__class__ is other.__class__:
                 equiv_amount = other.equiv_amount(self.unit)
                 if equiv_amount is None:
-                    raise UnitConversionError("Can't convert '%s' to '%s'.",
-                                              other.unit, self.unit)
+                    # no conversion, but the quotient of the units may
+                    # still be a number (as for units / units)
+                    amnt, _ = self.unit / other.unit
+                    return self.amount / other.amount * amnt
                 else:
                     return self.amount / equiv_amount
             else:
@@ -1765,8 +1767,10 @@ class Quantity(metaclass=QuantityMeta):
             if self.__class__ is other.qty_cls:
                 equiv_amount = self.equiv_amount(other)
                 if equiv_amount is None:
-                    raise UnitConversionError("Can't convert '%s' to '%s'.",
-                                              self.unit, other)
+                    # no conversion, but the quotient of the units may
+                    # still be a number (as for units / units)
+                    amnt, _ = self.unit / other
+                    return self.amount * amnt
                 else:
                     return equiv_amount
             else:
